@@ -126,13 +126,31 @@ def _deco(k):
     if not _DECO:
         from beartype import BeartypeConf, BeartypeStrategy, beartype
         ns = {}
-        exec("class C13ParamExc(Exception): pass\nclass C13RetExc(Exception): pass\n", ns)
+        import warnings
+        warnings.simplefilter("ignore")
+        exec("class C13ParamExc(Exception): pass\nclass C13RetExc(Exception): pass\n"
+             "class C13ParamExcW(Exception): pass\nclass C13RetExcW(Exception): pass\n"
+             "class C13Warning(UserWarning): pass\n", ns)
         _DECO["PE"], _DECO["RE"] = ns["C13ParamExc"], ns["C13RetExc"]
+        _DECO["PEW"], _DECO["REW"] = ns["C13ParamExcW"], ns["C13RetExcW"]
+        confs = {"D": BeartypeConf(), "O0": BeartypeConf(strategy=BeartypeStrategy.O0),
+                 "N": BeartypeConf(violation_param_type=ns["C13ParamExc"], violation_return_type=ns["C13RetExc"]),
+                 # W: the non-fatal decoration mode (what beartype.claw uses): decoration errors become warnings
+                 "W": BeartypeConf(warning_cls_on_decorator_exception=ns["C13Warning"],
+                                   violation_param_type=ns["C13ParamExcW"], violation_return_type=ns["C13RetExcW"])}
         _DECO["D"] = beartype
-        _DECO["O0"] = beartype(conf=BeartypeConf(strategy=BeartypeStrategy.O0))
-        _DECO["N"] = beartype(conf=BeartypeConf(violation_param_type=ns["C13ParamExc"],
-                                                violation_return_type=ns["C13RetExc"]))
+        for name in ("O0", "N", "W"):
+            _DECO[name] = beartype(conf=confs[name])
+        _DECO["confs"] = confs
     return _DECO[k]
+
+
+def _deco_in_class(k, obj, stack):
+    """decorate a member "on behalf of" the classes in stack (the route beartype(cls) takes for its members):
+    needed by hand only for members whose hints refer to the enclosing class (typing.Self)."""
+    _deco("D")
+    from beartype._decor.decorcore import beartype_object
+    return beartype_object(obj, _DECO["confs"][k], cls_stack=stack)
 
 
 def _classify(ex):
@@ -142,6 +160,10 @@ def _classify(ex):
         return "P:N"
     if type(ex) is _DECO["RE"]:
         return "R:N"
+    if type(ex) is _DECO["PEW"]:
+        return "P:W"
+    if type(ex) is _DECO["REW"]:
+        return "R:W"
     if isinstance(ex, BeartypeCallHintParamViolation):
         return "P:D"
     if isinstance(ex, BeartypeCallHintReturnViolation):
@@ -164,7 +186,7 @@ class World:
         mod = types.ModuleType(self.modname)          # dataclass() looks the module up in sys.modules
         sys.modules[self.modname] = mod
         self.ns = mod.__dict__
-        exec("import abc, enum, typing\nfrom typing import no_type_check\n"
+        exec("import abc, enum, typing\nfrom typing import no_type_check, Self\n"
              f"class {self.P}Meta(type): pass\n"
              f"class {self.P}SubCM(classmethod): pass\nclass {self.P}SubSM(staticmethod): pass\n", self.ns)
         # dont_inherit: this driver's "from __future__ import annotations" must not leak into the case
@@ -203,7 +225,10 @@ class World:
         if fl["ntc"]:
             out.append(f"{pad}@no_type_check")
         args = [first] if first else []
-        if role == "call":
+        if role == "call" and fl.get("ctx"):
+            args += ["x: Self", "*", "y: int = 0"]
+            ret, body = " -> Self", "return x"
+        elif role == "call":
             args += ["x: int" if ann else "x", "*", "y: int = 0" if ann else "y=0"]
             ret, body = " -> int" if ann else "", "return x"
         elif role == "get":
@@ -297,22 +322,25 @@ class World:
         self.extra[c] = {n: v for n, v in self.cls(c).__dict__.items() if n not in names}
 
     # ---- operations ---------------------------------------------------------------
-    def op_member(self, c, name, k):
+    def op_member(self, c, name, k, stack=None):
         K = self.cls(c)
         old = K.__dict__[name]
-        new = _deco(k)(old)
+        new = _deco(k)(old) if stack is None else _deco_in_class(k, old, stack)
         setattr(K, name, new)
         return old, new
 
-    def by_hand(self, c, k, slots_of):
+    def by_hand(self, c, k, slots_of, stack=()):
         """route B: decorate every function-like member class c itself defines, recursively
-        for the classes lexically nested in it."""
+        for the classes lexically nested in it.  A member whose hints refer to the enclosing class
+        (typing.Self) cannot be decorated in isolation: it is decorated on behalf of its class(es)."""
+        stack = stack + (self.cls(c),)
         for s in slots_of(c):
             if s["kind"] in ("func", "classmethod", "staticmethod", "property"):
                 self.last = (c, s["name"])
-                self.op_member(c, s["name"], k)
+                ctx = any(self.flags.get(p["origin"], {}).get("ctx") for p in s["parts"])
+                self.op_member(c, s["name"], k, stack if ctx else None)
             elif s["kind"] in ("nested", "alias") and self.classes[s["cls"] - 1]["owner"] == c:
-                self.by_hand(s["cls"], k, slots_of)
+                self.by_hand(s["cls"], k, slots_of, stack)
 
     def op_dataclass(self, c, slots):
         """slots: the model's members of class c after the operation (with the synthesised ones)."""
@@ -394,15 +422,16 @@ class World:
         elif kind in ("func", "classmethod", "staticmethod"):
             def target():
                 return getattr(_inst(K) if kind == "func" else K, n)
-            good, bad = run(lambda: target()(1, y=2)), run(lambda: target()(BAD))
-            want_good, want_bad = 1, BAD
-            if kind != "func" and good == ["ok", 1]:
+            G = _inst(K) if v.get("ctx") else 1     # typing.Self: an instance of the class is a good argument
+            good, bad = run(lambda: target()(G, y=2)), run(lambda: target()(BAD))
+            want_good, want_bad = G, BAD
+            if kind != "func" and good == ["ok", G]:
                 # class and static methods are also callable through an instance
-                vi = run(lambda: getattr(_inst(K), n)(1, y=2))
-                if vi != ["ok", 1]:
+                vi = run(lambda: getattr(_inst(K), n)(G, y=2))
+                if vi != ["ok", G]:
                     good = [f"via-instance:{vi[0]}", None]
             # the keyword-only parameter is checked like the positional one
-            bad_kw = run(lambda: target()(1, y=BAD))
+            bad_kw = run(lambda: target()(G, y=BAD))
             if bad_kw[0] != bad[0]:
                 bad = [f"positional:{bad[0]}|keyword:{bad_kw[0]}", None]
         elif kind == "property" and p == 1:
@@ -599,6 +628,9 @@ def replay_case(case):
         # bookkeeping for non-vacuity
         for v in row["verdicts"]:
             stats["v_" + v["bad"]] = stats.get("v_" + v["bad"], 0) + 1
+            if v.get("ctx"):
+                key = "ctx_wrapped_" + v["bad"][2:] if v["bad"] != "ok" else "ctx_plain"
+                stats[key] = stats.get(key, 0) + 1
             if v["def"] != v["c"]:
                 stats["inherited"] = stats.get("inherited", 0) + 1
         for c, cl in enumerate(case["classes"], 1):
@@ -686,7 +718,8 @@ def _cases_from_rows(rows, alt_rows=None, start_no=0):
 
 def _fmt_op(op, case):
     names = {1: "Base", 2: "Derived", 3: "Derived.Inner", 4: "Derived.Inner.Deep", 5: "Aux", 6: "DerivedAux"}
-    conf = {"D": "", "O0": "conf=O0", "N": "conf=<custom violation types>", "-": ""}[op["k"]]
+    conf = {"D": "", "O0": "conf=O0", "N": "conf=<custom violation types>",
+            "W": "conf=<warning_cls_on_decorator_exception set, custom violation types>", "-": ""}[op["k"]]
     if op["t"] == "C":
         return f"beartype({conf})({names[op['c']]})" if conf else f"beartype({names[op['c']]})"
     if op["t"] == "M":
@@ -763,8 +796,9 @@ def _run_model(d, name, groups, consts, invariants=None, workers=16):
 
 # one configuration for all spec mutants (DefaultGroups of ClassDecor.tla; unmutated it is part of the
 # main run as group "default" and satisfies every invariant): each mutant must violate a clause named for it
-DEFAULT_GROUP = ("default", dict(VD=["Fa", "Ca", "Fu", "Cs", "Ss"], VI=["none", "Sa"], MI=["type", "abc", "enum"], Aliases=["none", "Aux", "DerivedAux", "Self"],
-                                 Orders=["single", "memberclass", "membertwice"], Confs=["D", "N"]))
+DEFAULT_GROUP = ("default", dict(VD=["Fa", "Ca", "Fu", "Cs", "Ss", "Fx"], VI=["none", "Sa"], MI=["type", "enum"],
+                                 Aliases=["none", "Aux", "DerivedAux", "Self"],
+                                 Orders=["single", "memberclass"], Confs=["D", "N", "W"]))
 MUTANTS = [
     ("inherited", ["InheritedUntouched", "RouteEq"], dict(Mutant="inherited")),
     ("alias", ["AliasUntouched", "RouteEq", "ReturnsSelf"], dict(Mutant="alias")),
@@ -774,6 +808,9 @@ MUTANTS = [
     ("nometa", ["WrapsOriginal"], dict(Mutant="nometa")),
     ("wrapunann", ["NoopIdentity"], dict(Mutant="wrapunann")),
     ("nowrap", ["Wraps"], dict(Mutant="nowrap")),
+    # the class route forgets to hand the class stack to its members under a non-fatal configuration:
+    # members annotated with typing.Self stay undecorated (the error is only a warning)
+    ("ctxdropped", ["Wraps", "RouteEq"], dict(Mutant="ctxdropped")),
     # value.__class__ in TYPES_BEARTYPEABLE instead of isinstance: nested ABC / Enum / ... classes skipped
     ("exacttype", ["NestedDecorated", "RouteEq"], dict(Mutant="exacttype")),
     # 0.23.0: dispatch on the exact descriptor type name
@@ -840,11 +877,18 @@ def _groups(tier):
                                Confs=["D", "N"])))
     g.append(("subdescr", dict(VD=["Cs", "Ss"], VI=["none", "Ss", "Cs"], MI=["type", "abc"],
                                Orders=["single", "memberclass", "classmember", "twice"], Confs=["D", "N"])))
+    # members whose hints need the class (typing.Self) x the non-fatal configuration
+    g.append(("selfctx", dict(VB=["Fa", "Fx"], VD=["Fx", "Cx"], VO=["none"] if q else ["none", "Fx"], VI=["none", "Fx", "Cx"],
+                              VDeep=["none"] if q else ["none", "Fx"], MI=["type"] if q else ["type", "abc", "enum"],
+                              Orders=["single", "basefirst", "derivedfirst", "twice", "innerfirst"], Confs=["D", "W", "O0"])))
+    # ordinary members under the non-fatal configuration
+    g.append(("nonfatal", dict(VD=some if q else ALLV, VI=["none", "Sa"], Orders=["single", "memberclass", "classmember", "twice"],
+                               Confs=["W", "N"] if q else ["W", "D", "N"])))
     g.append(DEFAULT_GROUP)
     return g
 
 
-OPT_GROUP = dict(VD=["Fa", "Ca", "Sa", "Paaa", "Fu"], VI=["none", "Fa"], Aliases=["none", "DerivedAux"],
+OPT_GROUP = dict(VD=["Fa", "Ca", "Sa", "Paaa", "Fu", "Fx"], VI=["none", "Fa"], Aliases=["none", "DerivedAux"],
                  DCs=["none", "D"], Orders=["single", "twice", "memberclass", "membertwice", "basefirst", "dcbefore"],
                  Confs=["D", "O0", "N"])
 
@@ -959,7 +1003,8 @@ def run(rep, tier, seed):
         need = ["v_P:D", "v_P:N", "v_R:D", "v_R:N", "v_ok", "inherited", "func_wrapped", "func_plain", "classmethod_wrapped",
                 "classmethod_plain", "staticmethod_wrapped", "staticmethod_plain", "property_wrapped", "property_plain",
                 "ident_True", "ident_False", "nested_marked_type", "nested_marked_abc", "nested_marked_enum",
-                "nested_marked_custom", "nested_marked_protocol"]
+                "nested_marked_custom", "nested_marked_protocol", "v_P:W", "v_R:W", "ctx_wrapped_W", "ctx_wrapped_D",
+                "ctx_plain"]
         missing = [k2 for k2 in need if not stats.get(k2)]
         if missing:
             rep.machinery(f"vacuous replay: never exercised {missing}")
